@@ -5,7 +5,7 @@ from __future__ import annotations
 import ast
 
 from ..cfg import Node, must_edges, walk_no_nested
-from ..dataflow import chain_key, fmt_origin, origins
+from ..dataflow import bind_call, chain_key, fmt_origin, origins
 from ..loader import AnalysisError, FuncInfo
 from ..report import Ctx
 from .common import all_guards, call_name, direct_guards, norm, where
@@ -926,4 +926,97 @@ def check_cache_keys(ctx: Ctx) -> None:
             ctx.ob("R-RESOLVE-cache", f"{fi.qual} :: {norm(t)} keyed by all inputs of the cached value", not extra,
                    f"the cached value depends on {sorted(val_params)} but the key only on {sorted(key_params)}: a later call that differs in "
                    f"{sorted(extra)} gets the answer computed for another input", where(fi, node))
+            # a key that is a canonical form of a parameter (start_dir.resolve()): the value may look at that parameter only
+            # through the same canonical form - computed from the raw spelling, two spellings of one key (a/b/.., a symlink)
+            # would give different values and the first one asked for would be served to both
+            _check_canonical_key(ctx, fi, node, t)
     ctx.require("R-RESOLVE-cache", "memoising stores in the file resolver", n, 1)
+
+
+_CANON = ("resolve", "absolute", "lower", "upper", "casefold", "strip", "expanduser", "as_posix", "normcase")
+
+
+def _only_through(prog, g: FuncInfo, q: str, m: str, depth: int = 0) -> ast.AST | None:
+    """None if every read of parameter `q` in g is `q.m()` (or hands q to a function of the package that reads it only that
+    way); else the first other use."""
+    from ..loader import parent as _parent
+
+    if isinstance(g.node, ast.Lambda):
+        return g.node
+    for x in walk_no_nested(g.node):
+        if isinstance(x, ast.Name) and x.id == q and isinstance(x.ctx, ast.Store):
+            return x
+    for x in ast.walk(g.node):
+        if not (isinstance(x, ast.Name) and x.id == q and isinstance(x.ctx, ast.Load)):
+            continue
+        pa = _parent(x)
+        if isinstance(pa, ast.Attribute) and pa.attr == m and isinstance(_parent(pa), ast.Call) and _parent(pa).func is pa and not _parent(pa).args:
+            continue
+        if isinstance(pa, ast.Call) and depth < 2 and (x in pa.args or any(k.value is x for k in pa.keywords)):
+            t_ = prog.resolve_call(g, pa)
+            if isinstance(t_, list) and len(t_) == 1 and not isinstance(t_[0].node, ast.Lambda):
+                b = bind_call(t_[0], pa)
+                qs = [k for k, v in b.items() if v is x]
+                if len(qs) == 1 and _only_through(prog, t_[0], qs[0], m, depth + 1) is None:
+                    continue
+        return x
+    return None
+
+
+def _check_canonical_key(ctx: Ctx, fi: FuncInfo, node: Node, t: ast.Subscript) -> None:
+    from ..decide import expand_expr
+    from ..loader import parent as _parent
+
+    prog = ctx.prog
+    try:
+        key_e = expand_expr(prog, fi, t.slice, node, strict=False)
+        val_e = expand_expr(prog, fi, node.ast.value, node, strict=False)
+    except Exception:  # noqa: BLE001
+        return
+    canon: dict[str, str] = {}
+    raw: set[str] = set()
+    inside: set[int] = set()
+    for x in ast.walk(key_e):
+        if isinstance(x, ast.Call) and isinstance(x.func, ast.Attribute) and x.func.attr in _CANON and not x.args and isinstance(x.func.value, ast.Name) \
+                and x.func.value.id in fi.params:
+            canon[x.func.value.id] = x.func.attr
+            inside.add(id(x.func.value))
+    for x in ast.walk(key_e):
+        if isinstance(x, ast.Name) and id(x) not in inside:
+            raw.add(x.id)
+    for pname, m in canon.items():
+        if pname in raw:
+            continue
+        bad = None
+        # (expand_expr returns a detached copy: find parents by walking it)
+        parents: dict[int, ast.AST] = {}
+        for x in ast.walk(val_e):
+            for ch in ast.iter_child_nodes(x):
+                parents[id(ch)] = x
+        for x in ast.walk(val_e):
+            if not (isinstance(x, ast.Name) and x.id == pname):
+                continue
+            pa = parents.get(id(x))
+            if isinstance(pa, ast.Attribute) and pa.attr == m and isinstance(parents.get(id(pa)), ast.Call) and not parents[id(pa)].args:
+                continue
+            if isinstance(pa, ast.Call) and (x in pa.args or any(k.value is x for k in pa.keywords)):
+                # the copy is not in the function's tree: resolve through the original call of the same text
+                orig = next((c for c in ast.walk(node.ast.value) if isinstance(c, ast.Call) and norm(c) == norm(pa)), None)
+                if orig is None:
+                    orig = next((c for n2 in prog.flow(fi).cfg.nodes for c in prog.flow(fi).calls_in(n2) if norm(c) == norm(pa)), None)
+                t_ = prog.resolve_call(fi, orig) if orig is not None else None
+                if isinstance(t_, list) and len(t_) == 1 and not isinstance(t_[0].node, ast.Lambda):
+                    b = bind_call(t_[0], orig)
+                    qs = [k for k, v in b.items() if isinstance(v, ast.Name) and v.id == pname]
+                    if len(qs) == 1:
+                        other = _only_through(prog, t_[0], qs[0], m)
+                        if other is None:
+                            continue
+                        bad = f"{t_[0].qual} reads `{qs[0]}` as `{norm(_parent(other) or other)[:60]}`"
+                        break
+            bad = bad or f"`{norm(pa)[:60]}`"
+            break
+        ctx.ob("R-RESOLVE-cache", f"{fi.qual} :: {norm(t)} value computed from the canonical form of `{pname}`", bad is None,
+               f"the table is keyed by `{pname}.{m}()`, so the cached value may depend on `{pname}` only through `{pname}.{m}()`; "
+               f"{bad} - two spellings of one key would give different values, and whichever is asked for first is served to both",
+               where(fi, node))
